@@ -325,9 +325,9 @@ static void tcp_settle(int s)
 		if (rs[s].peer >= 0 && rs[rs[s].peer].fd >= 0) { pf[n].fd = rs[rs[s].peer].fd; pf[n].events = POLLIN | POLLOUT | POLLRDHUP; pf[n++].revents = 0; }
 		if (!n) return;
 		__real_poll(pf, (nfds_t)n, 0);
-		if (pf[0].revents == last0 && (n < 2 || pf[1].revents == last1)) same++; else same = 0;
+		if (pf[0].revents == last0 && (n < 2 || pf[1].revents == last1)) same++;
+		else { same = 0; if (i) sched_yield(); }
 		last0 = pf[0].revents; last1 = n > 1 ? pf[1].revents : 0;
-		sched_yield();
 	}
 }
 
